@@ -91,7 +91,9 @@ func (a *Act) builtin(st *State, f *ssa.Builtin, args []Val, c *ssa.CallCommon, 
 	case "close":
 		ch := args[0]
 		k, hs := "G:chanclosed", "(Array Int Bool)"
+		vc.oblige(a.oblName("nopanic-close"), "nopanic", a.props, a.pos(pos), st.guard, and(not(eq(ch.S, "0")), not(sel(vc.getHeap(st, k, hs), ch.S))), "close of nil or already closed channel")
 		vc.setHeap(st, k, hs, store(vc.getHeap(st, k, hs), ch.S, "true"))
+		a.logHeapAt(k, ch.S)
 		return Val{Sort: "Tuple"}
 	case "panic":
 		vc.oblige(a.oblName("nopanic-explicit"), "nopanic", a.props, a.pos(pos), st.guard, "false", "explicit panic unreachable")
